@@ -631,6 +631,30 @@ def guarded():
         yield p.Sum((p.If(g, u, 5), p.If(g, u, 7)))
         yield p.Product((p.If(g, u, 5), p.If(p.Comparison(g, "==", 0), 1, u)))
         yield p.LogicalOr((p.LogicalAnd((g, p.Comparison(u, ">", 1))), p.LogicalAnd((g, p.Comparison(u, "<", 0)))))
+    # the SAME common-subexpression wrapper in several parts of a conditional / short-circuit
+    # operator: whichever part is evaluated first (the condition, although the source text
+    # starts with the then-branch), or is the only one evaluated, must find it computed
+    C = p.CommonSubexpression
+    for s_ in (C(p.Sum((g, a))), C(p.Product((g, a)), "t"), C(p.Sum((a, p.Product((2, g)))), "sub")):
+        yield p.If(p.Comparison(s_, ">", 0), p.Product((s_, 2)), 0)
+        yield p.If(p.Comparison(s_, ">", 0), 1, p.Sum((s_, 5)))
+        yield p.If(p.Comparison(a, ">", 0), p.Sum((s_, 1)), p.Sum((s_, -1)))
+        yield p.Sum((p.If(p.Comparison(s_, "<", a), a, s_), s_))
+        yield p.If(p.LogicalAnd((p.Comparison(a, ">", 0), p.Comparison(s_, ">", 1))), s_, p.Product((-1, s_)))
+        yield p.If(p.LogicalOr((p.Comparison(a, ">", 0), p.Comparison(s_, ">", 1))), 1, s_)
+        yield p.Sum((p.If(p.Comparison(a, ">", 0), s_, 0), p.If(p.Comparison(g, ">", 1), s_, 1)))
+        yield p.Sum((p.Product((s_, s_)), s_))
+    for u in (q, r, d):
+        w = C(u, "w")
+        yield p.Sum((p.If(p.Comparison(g, "!=", 0), w, 0), p.If(g, w, 1)))
+        yield p.If(g, p.Sum((w, w)), 0)
+        yield p.LogicalAnd((g, p.Comparison(w, ">", 0), p.Comparison(w, "<", 9)))
+    # nodes whose generated code mentions a NAME that is not a variable of the expression
+    # (`float('nan')`): the signature is the free variables, nothing else
+    for nan in (p.NaN(), p.NaN(float)):
+        yield p.If(g, nan, p.Sum((a, 1)))
+        yield p.If(p.Comparison(a, ">", 0), p.Sum((a, g)), nan)
+        yield p.Sum((a, p.If(g, 1, nan)))
     # both branches guarded, by different values
     yield p.If(g, p.Sum((q, q)), p.Sum((q3, q3)))
     yield p.If(p.Comparison(g, "==", 3), p.Sum((q, q)), p.Sum((q3, q3)))
@@ -1100,6 +1124,67 @@ class FunctionSourceStream(PathStream):
             return Failure("function-source:signature", f"{src!r}: expected keyword-only "
                            f"{free_names(e)}", pl)
         return None
+
+
+def signature_family():
+    """trees whose generated code mentions names that are NOT variables of the expression
+    (`float('nan')` of a typed NaN, `math`-style helpers), in guarded and unguarded positions;
+    built in-process because the wire format does not carry a NaN's data type"""
+    a, b, c, f = (p.Variable(n) for n in ("a", "b", "c", "float"))
+    out = []
+    for nan in (p.NaN(float),):
+        out += [nan, p.Sum((a, nan)), p.If(c, nan, p.Sum((a, b))), p.If(p.LogicalNot(c), p.Product((a, b)), nan),
+                p.Sum((a, p.If(b, 1, nan))), p.Call(p.Variable("g"), (nan, a)),
+                # a VARIABLE that happens to be called like the helper, next to the helper
+                p.Sum((f, p.If(c, nan, 1)))]
+    out += [p.Sum((a, b)), p.If(c, a, b), p.Call(p.Variable("g"), (a,)), p.Sum((f, a))]
+    return out
+
+
+class SignatureStream(Stream):
+    """to_evaluatable_python_function(): the parameters are keyword-only and are EXACTLY the free
+    variables of the expression in name order, also when the generated body uses helper names
+    (`float('nan')`); calling with exactly those arguments never fails for want of an argument
+    (oracle only)"""
+    name = "function-source-signature"
+    has_model = False
+
+    def cases(self, rng, tier):
+        for i in range(len(signature_family())):
+            yield {"i": i}
+
+    def run_impl(self, pl):
+        return "(oracle-only)"
+
+    def oracle(self, pl):
+        from pymbolic.interop.ast import to_evaluatable_python_function
+        e = signature_family()[pl["i"]]
+        try:
+            src = to_evaluatable_python_function(e, "fn")
+        except Exception as ex:
+            if _refusal(ex):
+                return None
+            return Failure("function-source-signature:raises", f"{e!r}: {ex!r}", pl)
+        fd = ast.parse(src).body[0]
+        got = [x.arg for x in fd.args.kwonlyargs]
+        want = free_names(e)
+        if fd.args.args or fd.args.posonlyargs or fd.args.vararg or fd.args.kwarg or got != want:
+            return Failure("function-source-signature:parameters",
+                           f"{e!r}: parameters {got}, free variables {want}; source {src!r}", pl)
+        ns: dict = {}
+        exec(src, ns)  # noqa: S102
+        env = {n: ((lambda *aa: 1) if n == "g" else 2) for n in want}
+        try:
+            ns["fn"](**env)
+        except TypeError as ex:
+            if "argument" in str(ex):
+                return Failure("function-source-signature:call", f"{e!r}: fn(**free variables) -> {ex!r}", pl)
+        except Exception:
+            pass
+        return None
+
+    def nontrivial_key(self, pl, model, impl):
+        return str(pl["i"])
 
 
 class RoundTripStream(PathStream):
@@ -2814,7 +2899,8 @@ PROP = Prop(
     extractors=[extract],
     streams=[CompileStream(), ArgOrderStream(), ToAstStream(), FunctionSourceStream(),
              RoundTripStream(), FromAstStream(), DenAstStream(), PyTableStream(),
-             SourceGroupsStream(), TableRunStream(), FunctionDefStream(), CompileHistoryStream()],
+             SourceGroupsStream(), TableRunStream(), FunctionDefStream(), CompileHistoryStream(),
+             SignatureStream()],
     probes=[probes],
     trusted_base=["Lean 4.33 kernel; axioms propext, Classical.choice, Quot.sound only",
                   "CPython (eval, compile, ast.unparse, pickle) executes the generated programs: "
